@@ -22,6 +22,7 @@ import (
 func main() {
 	repo := flag.String("repo", "", "scratch copy of the repository (files are rewritten in place)")
 	only := flag.String("only", "", "comma-separated package path suffixes to restrict to (default: all)")
+	mode := flag.String("mode", "rename", "rename: rename every local; noop: insert a call of an empty function at the head of every block; flip: swap the operands of comparisons between two call-free non-constant operands")
 	flag.Parse()
 	if *repo == "" {
 		fmt.Fprintln(os.Stderr, "usage: alpharename -repo <scratch copy>")
@@ -34,6 +35,14 @@ func main() {
 		os.Exit(2)
 	}
 	nfiles, nren := 0, 0
+	noopPkgs := map[string]string{}
+	defer func() {
+		if *mode == "noop" {
+			for dir, pkg := range noopPkgs {
+				os.WriteFile(filepath.Join(dir, "zz_verifnoop.go"), []byte("package "+pkg+"\n\nfunc verifNoop() {}\n"), 0o644)
+			}
+		}
+	}()
 	for _, p := range pkgs {
 		if len(p.Errors) > 0 {
 			fmt.Fprintln(os.Stderr, "type errors in", p.PkgPath, p.Errors[0])
@@ -67,6 +76,25 @@ func main() {
 				return v.Parent() != nil && v.Parent() != v.Pkg().Scope() && v.Parent() != types.Universe
 			}
 			changed := 0
+			if *mode == "noop" || *mode == "flip" {
+				changed = transform(*mode, info, f)
+				if changed > 0 {
+					out, err := os.Create(name)
+					if err != nil {
+						fmt.Fprintln(os.Stderr, err)
+						os.Exit(2)
+					}
+					if err := format.Node(out, p.Fset, f); err != nil {
+						fmt.Fprintln(os.Stderr, err)
+						os.Exit(2)
+					}
+					out.Close()
+					nfiles++
+					nren += changed
+					noopPkgs[filepath.Dir(name)] = p.Name
+				}
+				continue
+			}
 			// type-switch symbolic variables: the defining ident has no object
 			implicitDefs := map[*ast.Ident]bool{}
 			ast.Inspect(f, func(n ast.Node) bool {
@@ -120,4 +148,81 @@ func main() {
 		}
 	}
 	fmt.Printf("alpharename: %d files rewritten, %d identifiers renamed\n", nfiles, nren)
+}
+
+func callFree(e ast.Expr) bool {
+	ok := true
+	ast.Inspect(e, func(n ast.Node) bool {
+		switch n.(type) {
+		case *ast.CallExpr, *ast.FuncLit, *ast.UnaryExpr:
+			ok = false
+		}
+		return ok
+	})
+	return ok
+}
+
+func transform(mode string, info *types.Info, f *ast.File) int {
+	n := 0
+	noop := func() ast.Stmt {
+		return &ast.ExprStmt{X: &ast.CallExpr{Fun: ast.NewIdent("verifNoop")}}
+	}
+	skip := map[*ast.BlockStmt]bool{}
+	ast.Inspect(f, func(m ast.Node) bool {
+		switch x := m.(type) {
+		case *ast.SwitchStmt:
+			skip[x.Body] = true
+		case *ast.TypeSwitchStmt:
+			skip[x.Body] = true
+		case *ast.SelectStmt:
+			skip[x.Body] = true
+		}
+		return true
+	})
+	ast.Inspect(f, func(m ast.Node) bool {
+		switch x := m.(type) {
+		case *ast.CommClause:
+			if mode == "noop" {
+				x.Body = append([]ast.Stmt{noop()}, x.Body...)
+				n++
+			}
+		case *ast.BlockStmt:
+			if mode == "noop" && !skip[x] {
+				x.List = append([]ast.Stmt{noop()}, x.List...)
+				n++
+			}
+		case *ast.CaseClause:
+			if mode == "noop" {
+				x.Body = append([]ast.Stmt{noop()}, x.Body...)
+				n++
+			}
+		case *ast.BinaryExpr:
+			if mode != "flip" {
+				return true
+			}
+			var rev token.Token
+			switch x.Op {
+			case token.EQL, token.NEQ:
+				rev = x.Op
+			case token.LSS:
+				rev = token.GTR
+			case token.GTR:
+				rev = token.LSS
+			case token.LEQ:
+				rev = token.GEQ
+			case token.GEQ:
+				rev = token.LEQ
+			default:
+				return true
+			}
+			tx, ty := info.Types[x.X], info.Types[x.Y]
+			if tx.Value != nil || ty.Value != nil || tx.IsNil() || ty.IsNil() || !callFree(x.X) || !callFree(x.Y) {
+				return true
+			}
+			x.X, x.Y, x.Op = x.Y, x.X, rev
+			n++
+		}
+		return true
+	})
+	return n
 }
